@@ -31,6 +31,50 @@ def non_bytes() -> str:
     return "ok:valueerror"
 
 
+class NInner(Packet):
+    x = Int(1)
+    y = Int(2)
+
+
+class NOuter(Packet):
+    h = Int(1)
+    inner = Ref(NInner)
+    items = Ref(NInner).repeated(2)
+    z = Int(1)
+
+
+def nested_pack(v: int, which: int) -> str:
+    """a failing value two levels down on pack: innermost entry names the nested field at its output position, followed by
+    one entry per enclosing reference / sequence field"""
+    assume(0 <= which <= 2)
+    p = NOuter(items=[NInner(), NInner()])
+    target = [p.inner, p.items[0], p.items[1]][which]
+    target.y = v
+    want_pos = [2, 5, 8][which]
+    want_parent = ["inner", "items", "items"][which]
+    try:
+        p.pack()
+    except PacketError as e:
+        if 0 <= v <= 65535:
+            return "FAIL sig=C12|representable-value-rejected|nested"
+        if e.was_error_found_in_unpacking_phase is not False or getattr(e, "packet", None) is not p:
+            return "FAIL sig=C12|wrong-phase-flag|nested"
+        st = e.fields_stack
+        if len(st) != 2:
+            return "FAIL sig=C12|stack-depth|nested got=%r" % (st,)
+        if tuple(st[0]) not in ((want_pos, "y", "NInner"), (want_pos - 1, "between 'x' and 'y'", "NInner")):
+            return "FAIL sig=C12|innermost-entry-does-not-locate-failing-field|nested got=%r want=%r" % (st[0], (want_pos, "y", "NInner"))
+        if st[1][1] != want_parent or st[1][2] != "NOuter":
+            return "FAIL sig=C12|enclosing-entry|nested got=%r" % (st[1],)
+        str(e)
+        return "ok:rejected-located"
+    except Exception as e:
+        return "FAIL sig=C12|pack-failure-not-PacketError|nested|%s" % type(e).__name__
+    if not (0 <= v <= 65535):
+        return "FAIL sig=C12|out-of-range-packed|nested"
+    return "ok:packed"
+
+
 def collide(o: int) -> str:
     """colliding positions on pack: file_data placed on top of payload"""
     assume(0 <= o <= 7)
@@ -135,8 +179,9 @@ def build(tier, seed):
             obs.append(base)
     for gen in ("generic", "generated"):
         base = obligations("C12", [CAT["d_folder_overlap"]], tier, "'ok:unused'", gens=(gen,), lengths=[0], extra_src=MISC)[0]
-        base.update({"id": "C12/misc/%s" % gen, "fn": ["non_bytes", "collide"], "required_tags": ["valueerror", "rejected-located", "packed"],
-                     "bound": "finite list of non-bytes inputs (concrete); colliding at-position symbolic in [0,7]",
+        base.update({"id": "C12/misc/%s" % gen, "fn": ["non_bytes", "collide", "nested_pack"], "required_tags": ["valueerror", "rejected-located", "packed"],
+                     "bound": "finite list of non-bytes inputs (concrete); colliding at-position symbolic in [0,7]; unbounded value in a field two "
+                              "levels down (direct Ref, first and second element of a sequence of packets)",
                      "assertion": "non-bytes raw => ValueError; overlapping placement => PacketError naming the second field at its position"})
         obs.append(base)
     for gen, opts in (("generic", "'generate_for_pack': False, 'generate_for_unpack': False"), ("generated", "")):
